@@ -669,6 +669,22 @@ def w_fchk(m, lay, rng, variant):
     pol_tri = [5.1, 0.2, 6.1, 0.3, 0.4, 7.1]
     lines += _fchk_array(lay, "Polarizability", pol_tri, True)
     pol = np.array([[5.1, 0.2, 0.3], [0.2, 6.1, 0.4], [0.3, 0.4, 7.1]])
+    if variant == "shuffled":
+        # the order of the fields of a checkpoint file is not fixed, and files carry many fields a reader does not know:
+        # split into (header, field blocks), add foreign fields of every type, shuffle
+        head, blocks = lines[:2], []
+        for ln in lines[2:]:
+            if len(ln) > 43 and ln[43] in "IRCL" and ln[:40].strip() and not ln[:1].isspace():
+                blocks.append([ln])
+            else:
+                blocks[-1].append(ln)
+        blocks.append([f"{'Route':<40s}   C   N={3:12d}", "#p hf/sto-3g scf=tight pop=full"])
+        blocks.append([f"{'Info1-9':<40s}   I   N={9:12d}", "".join(f"{v:12d}" for v in range(1, 7)), "".join(f"{v:12d}" for v in range(7, 10))])
+        blocks.append([f"{'Virial Ratio':<40s}   R     {2.0012345678:22.15E}"])
+        blocks.append([f"{'ONIOM Charges':<40s}   R   N={2:12d}", f"{0.5:16.8E}{-0.5:16.8E}"])
+        blocks.append([f"{'External E-field':<40s}   L     {'F':>12s}"])
+        rng.shuffle(blocks)
+        lines = head + [ln for b in blocks for ln in b]
     exp = {"atnums": m.z, "atcoords": m.xyz, "atcorenums": q, "energy": energy, "atmasses": m.masses, "atgradient": grad, "athessian": h,
            "atcharges.mulliken": m.charges, "moments.(1,c)": dip, "moments.(2,c)": quad, "extra.polarizability_tensor": pol,
            "one_rdms.scf": dm, "atfrozen": [f == -2 for f in frozen], "mo.energies": moe, "mo.coeffs": C, "obasis.exponents": exps}
@@ -681,7 +697,7 @@ WRITERS = {"xyz": w_xyz, "extxyz": w_extxyz, "sdf": w_sdf, "pdb": w_pdb, "gromac
            "orcalog": w_orcalog, "gamess": w_gamess, "qchemlog": w_qchemlog, "wfx": w_wfx}
 VARIANTS = {"xyz": ["plain", "numbers"], "poscar": ["direct", "cartesian", "selective", "scaled"], "cube": ["five", "ragged", "six", "one"],
             "gromacs": ["rect", "triclinic"], "json_qcschema": ["plain", "massnumbers"], "gaussianlog": ["plain", "twoel"], "orcalog": ["plain", "opt"], "gamess": ["plain", "opt"],
-            "qchemlog": ["plain", "unrestricted", "freq"], "wfx": ["plain", "gradient", "gradient_permuted"]}
+            "qchemlog": ["plain", "unrestricted", "freq"], "wfx": ["plain", "gradient", "gradient_permuted"], "fchk": ["plain", "shuffled"]}
 # coordinate digits written per format and the magnitude classes its columns can hold
 DIGITS = {"xyz": 8, "extxyz": 8, "sdf": 4, "pdb": 3, "gromacs": 3, "charmm": 5, "mol2": 4, "poscar": 8, "chgcar": 8, "locpot": 8, "cube": 6,
           "fcidump": 3, "gaussianinput": 8, "json_qcschema": 8, "fchk": 8, "gaussianlog": 6, "orcalog": 6, "gamess": 10, "qchemlog": 10, "wfx": 10}
